@@ -158,6 +158,18 @@ CHECKS = {
         'cause class and line are compared with plain exec/eval of the same text. Exploration with an exhaustive finite sub-domain.',
         'Ambiguous nodes (IfExp, comprehensions, with, bare decorators) never required to be refused; in-process evaluate only.',
         'DESIGN.md section 3 C19'),
+    'C20': (
+        'metamorphic PBT (hostile vs benign twin skeleton) + strict well-formedness tokenizer + completeness oracle over generated values, options and controls',
+        'Generated nested values whose strings, dict keys and class / field documentation contain HTML metacharacters, quotes, '
+        'closing-tag fragments, comment / CDATA terminators, character references and script fragments, rendered under generated '
+        'combinations of tree-view options (collapse level, tooltips, key style, summary switches, max lengths, include / exclude keys, '
+        'uncollapse paths, colors, name, title); plus Label / Badge / LabelGroup / Tooltip / TabControl (both positions) / ProgressBar '
+        'built with hostile strings in their data positions. Oracles: tags nested and closed against a stack; the same value with every '
+        'hostile character replaced by a benign one (injectively) must yield the identical tag / attribute-name skeleton and no user '
+        'string inside script/style; every key and short leaf string is present in the unescaped text or attribute values unless '
+        'include/exclude options remove it; rendering leaves the value unchanged. Exploration.',
+        'html.parser is the tokenizer; fields documented as "text or HTML content" of controls get benign text (markup there is by design).',
+        'DESIGN.md section 3 C20'),
 }
 
 NOT_BUILT = 'check not built yet in this round (planned; see DESIGN.md section 3)'
